@@ -20,6 +20,7 @@ import (
 
 	"github.com/circlefin/noble-cctp/x/cctp/keeper"
 	ct "github.com/circlefin/noble-cctp/x/cctp/types"
+	sdk "github.com/cosmos/cosmos-sdk/types"
 
 	"verif/harness/chain"
 	"verif/harness/ref"
@@ -64,7 +65,7 @@ func runTranscriptR(seed int64, hid, nTx int, yield func(), restartEvery int) (d
 		rep := e.Exec(tx)
 		g.Learn(tx, rep)
 		h := sha256.New()
-		fmt.Fprintf(h, "%d|%s|", rep.Res.Code, rep.Res.Codespace)
+		fmt.Fprintf(h, "%d|%s|gas=%d|", rep.Res.Code, rep.Res.Codespace, rep.Res.GasUsed)
 		h.Write(rep.Res.Data)
 		if !rep.Res.IsPanic() {
 			h.Write([]byte(rep.Res.Log)) // the error text returned to the submitter (panic logs carry goroutine ids: excluded)
@@ -145,6 +146,81 @@ func c18ExtremesTranscript(seed int64) (digests []string, viol []Violation, inc 
 	fh := chain.HashDump(e.C.DumpAll())
 	digests = append(digests, "final:"+hex.EncodeToString(fh[:])[:16])
 	return digests, rc.Viol, rc.Cov.Inconcl
+}
+
+// c18SlowNodeTwin: the same short history (mints, deposits in both variants, both replacements, a refused receive)
+// on two identical instances; on the second every call into the bank / fiat-token-factory takes 130 ms, as on a
+// loaded node. Result codes, response bytes, events, the gas the transaction used and the app hash must be the same:
+// how fast a node is is not chain state.
+func c18SlowNodeTwin(rc *RunCtx) {
+	run := func(delay time.Duration) (out []string, viol []Violation, inc []string) {
+		r2 := &RunCtx{ID: "C18", Tier: "quick", Seed: rc.Seed, Cov: NewCov()}
+		r2.Rand = newRand(rc.Seed*53 + 11)
+		gs := StdGenesis()
+		f, allow := DefaultFunding(r2.Rand, false)
+		cfg := chain.Config{Genesis: gs, Funded: f, Allowance: allow}
+		headerStyle(&cfg, 1)
+		e, err := NewEngine(r2, cfg)
+		if err != nil {
+			return nil, nil, []string{"slow-node twin engine: " + err.Error()}
+		}
+		e.NoModeTwin, e.NoPositionTwin = true, true
+		e.C.Deps.Delay = delay
+		rec := func(rep *Report) *Report {
+			ev := 0
+			for _, x := range rep.Res.Events {
+				ev += len(x.Attributes)
+			}
+			out = append(out, fmt.Sprintf("code=%d/%s data=%x events=%d/%d gas=%d app=%x", rep.Res.Code, rep.Res.Codespace, sha256.Sum256(rep.Res.Data), len(rep.Res.Events), ev, rep.Res.GasUsed, e.C.AppHash[:6]))
+			return rep
+		}
+		nonce := uint64(70_000)
+		var sent [][]byte
+		for i := 0; i < 3; i++ {
+			nonce++
+			raw := StdInbound(nonce, UserIx, big.NewInt(int64(1000+i))).Bytes()
+			rec(e.Exec(Tx{Msgs: msgs1(&ct.MsgReceiveMessage{From: Acct(OtherIx), Message: raw, Attestation: e.Attest(raw, 0)}), Note: "slow-node twin: mint"}))
+			var dep sdk.Msg = &ct.MsgDepositForBurn{From: Acct(RichIx), Amount: mkInt(big.NewInt(int64(10 + i))), DestinationDomain: uint32(i % 3), MintRecipient: Structured32(byte(i + 1)), BurnToken: "uusdc"}
+			if i == 1 {
+				dep = &ct.MsgDepositForBurnWithCaller{From: Acct(RichIx), Amount: mkInt(big.NewInt(int64(10 + i))), DestinationDomain: 1, MintRecipient: Structured32(4), BurnToken: "uusdc", DestinationCaller: Structured32(9)}
+			}
+			if rep := rec(e.Exec(Tx{Msgs: msgs1(dep), Note: "slow-node twin: deposit"})); rep.OK && len(rep.Sent) == 1 {
+				sent = append(sent, rep.Sent[0])
+			}
+		}
+		for _, o := range sent {
+			rec(e.Exec(Tx{Msgs: msgs1(&ct.MsgReplaceDepositForBurn{From: Acct(RichIx), OriginalMessage: o, OriginalAttestation: e.Attest(o, 0), NewDestinationCaller: Structured32(7), NewMintRecipient: Structured32(8)}), Note: "slow-node twin: replace deposit"}))
+		}
+		if rep := rec(e.Exec(Tx{Msgs: msgs1(&ct.MsgSendMessage{From: Acct(UserIx), DestinationDomain: 2, Recipient: Structured32(3), MessageBody: []byte("twin")}), Note: "slow-node twin: send"})); rep.OK && len(rep.Sent) == 1 {
+			rec(e.Exec(Tx{Msgs: msgs1(&ct.MsgReplaceMessage{From: Acct(UserIx), OriginalMessage: rep.Sent[0], OriginalAttestation: e.Attest(rep.Sent[0], 0), NewMessageBody: []byte("twin 2"), NewDestinationCaller: Structured32(6)}), Note: "slow-node twin: replace"}))
+		}
+		raw := StdInbound(nonce, UserIx, big.NewInt(5)).Bytes() // the last nonce again: refused
+		rec(e.Exec(Tx{Msgs: msgs1(&ct.MsgReceiveMessage{From: Acct(OtherIx), Message: raw, Attestation: e.Attest(raw, 0)}), Note: "slow-node twin: replay"}))
+		return out, r2.Viol, r2.Cov.Inconcl
+	}
+	fast, v1, i1 := run(0)
+	slow, v2, i2 := run(130 * time.Millisecond)
+	for _, x := range append(v1, v2...) {
+		rc.Report(x)
+	}
+	for _, x := range append(i1, i2...) {
+		rc.Cov.Inconclusive(x)
+	}
+	rc.Cov.Assert("C18.slow-node-twin")
+	rc.Cov.Cell("C18_modes", "slow-node-twin")
+	rc.Cov.Extra["slow_node_twin_txs"] = float64(len(fast))
+	for i := range fast {
+		if i >= len(slow) || fast[i] != slow[i] {
+			s := "<missing>"
+			if i < len(slow) {
+				s = slow[i]
+			}
+			rc.Report(Violation{Props: []string{"C18"}, Monitor: "slow-node-twin", Sig: "C18:outcome-depends-on-node-speed",
+				Detail: fmt.Sprintf("transaction %d of the twin history differs between a fast and a slow node (dependency calls delayed by 130 ms): fast {%s} slow {%s}", i, fast[i], s),
+				Case:   map[string]interface{}{"fast": fast, "slow": slow}})
+			break
+		}
+	}
 }
 
 // resultDigest: everything a submitter or an indexer sees of one transaction, without block-level values.
@@ -516,6 +592,10 @@ func runC18(rc *RunCtx) {
 		d, v, inc := runTranscriptR(rc.Seed, hb, nTx, nil, every)
 		rec(hb, fmt.Sprintf("restart-every-%d", every), d, v, inc)
 	}
+	// (b00) a fast and a slow node
+	if rc.Shard%3 == 2 || rc.NShards < 3 {
+		c18SlowNodeTwin(rc)
+	}
 	// (b0) the fixed extremes history, in every process
 	{
 		d, v, inc := c18ExtremesTranscript(rc.Seed)
@@ -701,7 +781,7 @@ func init() {
 			if v, _ := c.Extra["race_log_parsed"].(bool); !v {
 				miss = append(miss, "race pass did not run")
 			}
-			for _, m := range []string{"fixed-extremes", "fresh-process", "after-unrelated-histories", "restart-every-3", "restart-every-11", "concurrent", "race:concurrent-instances", "race:parallel-queries"} {
+			for _, m := range []string{"slow-node-twin", "fixed-extremes", "fresh-process", "after-unrelated-histories", "restart-every-3", "restart-every-11", "concurrent", "race:concurrent-instances", "race:parallel-queries"} {
 				if c.Matrix["C18_modes"][m] == 0 {
 					miss = append(miss, "mode not exercised: "+m)
 				}
